@@ -2,13 +2,13 @@
 from verif import *
 from props.routers import *
 
-THEOREMS = []
+THEOREMS = ['c10_single_bound', 'c10_error_code_is_replier_already_bound']
 
 
 def run(tier, seed, replay=None):
     check = Check('C10', tier, seed)
     if THEOREMS:
-        prove(check, '', THEOREMS)
+        prove(check, 'theories/Props_C10.v', THEOREMS)
     engines = ['rr']
     if replay:
         head = open(replay).read(4000)
